@@ -258,10 +258,8 @@ def _is_blacklisted(element: Any) -> bool:
             return (
                 func.__module__ is None
                 or func.__module__ in module_blacklist
-                or func.__qualname__.startswith((
-                    "main",
-                    "test",
-                ))
+                or func.__qualname__ == "main"
+                or func.__qualname__.startswith("test")
                 or f"{func.__module__}.{func.__qualname__}" in method_blacklist
             )
     except Exception:  # noqa: BLE001
